@@ -85,6 +85,22 @@ def generate(rng, tier):
                           'gb.w %d %d %d' % (inst, r2.choice([0xff14, 0xff19, 0xff1e, 0xff23, 0xff25, 0xff24]), r2.randrange(256))]
             lines += ['gb.obs %d' % inst]
         cases.append(('sound%d' % i, lines))
+    # several enabled interrupts requested at once: the order of service is part of the trace (IF after each dispatch)
+    for i in range(6 if tier == 'quick' else 40):
+        import random as _r
+        seed = rng.randrange(1 << 30)
+        lines = []
+        for inst in (0, 1):
+            r2 = _r.Random(seed)
+            lines += ['gb.newloop %d 0 0 0' % inst]
+            for j, b in enumerate([0xfb, 0x00, 0x18, 0xfd]):          # EI; NOP; JR -3
+                lines.append('gb.w %d %d %d' % (inst, 0xc000 + j, b))
+            lines += ['gb.set %d 1 2 3 4 5 0 6 7 57343 49152' % inst, 'gb.w %d 65535 31' % inst]
+            for _ in range(6):
+                m = r2.choice([0x1f, 0x1e, 0x0c, 0x05, 0x12, 0x18, r2.randrange(3, 32)])
+                lines += ['gb.w %d 65295 %d' % (inst, m), 'gb.set %d 1 2 3 4 5 0 6 7 57343 49152' % inst, 'gb.cyc %d 9' % inst, 'gb.obs %d' % inst,
+                          'gb.rr %d 57336 57343' % inst]
+        cases.append(('prio%d' % i, lines))
     # successive machines of one process loaded from the same path with different contents
     for i in range(2 if tier == 'quick' else 10):
         kinds = rng.sample([(0, 0, 0), (19, 0, 3), (3, 0, 2), (27, 1, 3), (6, 0, 0), (16, 1, 3)], 3)
